@@ -2,7 +2,7 @@
 """Directed plans of the end-to-end checks (plans/C05.jsonl, plans/C06.jsonl)."""
 import json, os, sys
 sys.path.insert(0, os.path.dirname(os.path.dirname(os.path.abspath(__file__))))
-from checks.pipecommon import coll, CAT_K, kscripts
+from checks.pipecommon import coll, CAT_K, CAT_K3, kscripts
 
 A, B = "sa_101v0", "sa_102v0"
 T1 = [{"id": "t1", "coll": "*"}]
@@ -41,6 +41,14 @@ c05 = [
  # drop replayed: checkpoints of the dropped collection are frozen
  {"plan": "d-drop-freezes", "params": P(CAT_K, sc_drop, T1), "steps": [{"op": "boot"}, d(A), d(B), d(A), d(B), {"op": "kill"}, {"op": "restart"}, d(B)]},
 ]
+C3 = "sa_103v0"
+T3 = [{"id": "t1", "coll": "c1"}, {"id": "t2", "coll": "c2"}, {"id": "t3", "coll": "c3"}]
+# three tasks share one batch: the write of t1's pack fails, t3's pack queued behind it is dropped while t3 keeps running
+c05.append({"plan": "d-batch-loss-3tasks", "params": P(CAT_K3, kscripts({A: [True, True], B: [True, True], C3: [True, True, True]}), T3, 3),
+            "steps": [{"op": "boot"}, {"op": "arm", "kind": "ack", "n": 1}, d(A), d(C3), d(B), {"op": "disarm"}, d(C3), d(C3), d(C3), {"op": "list"}]})
+# two tasks share a batch: the write of t1's pack fails, t2 (whose pack triggered the flush) is paused as well
+c06.append({"plan": "d-batch-other-paused", "params": P(CAT_K, kscripts({A: [True, True], B: [True, True]}), T2, 2),
+            "steps": [{"op": "boot"}, {"op": "arm", "kind": "ack", "n": 1}, d(A), d(B), {"op": "disarm"}, {"op": "list"}]})
 here = os.path.dirname(os.path.abspath(__file__))
 for name, ps in (("C05", c05), ("C06", c06)):
     with open(os.path.join(here, name + ".jsonl"), "w") as f:
